@@ -137,4 +137,12 @@ def word_edge_positions():
         "#bankdef b { #bits 8, #addr 0 }\n#align 0xfffffffffffffff8\n#res 1\nx:\n",
         "#bankdef b { #bits 8, #addr 0 }\n#d8 1\n#align 0xffffffffffffffff\n#res 1\nx:\n",
         "#bankdef b { #bits 8, #addr 0 }\n#res 1\n#align 0xffffffffffffffff\n#res 0xffffffff\nx:\n#d8 x`8\n",
+        # the output position `outp + position` (finding F81, repaired: it wrapped, the item landed outside its bank's window)
+        "#bankdef a { bits=8, addr=0, size=0x10, outp=0xffff_ffff_ffff_fff8 }\n#bankdef b { bits=8, addr=0, size=0x10, outp=0x10 }\n#bank b\n#d8 0xcd\n#bank a\n#res 1\n#d8 0xab\n",
+        "#bankdef a { bits=8, addr=0, size=1, outp=0xffff_ffff_ffff_fff8, fill }\n",
+        "#bankdef a { bits=8, addr=0, size=8, outp=0xffff_ffff_ffff_ffc0 }\n#d8 1\n",
+        "#bankdef a { bits=8, addr=0, size=7, outp=0xffff_ffff_ffff_ffc0 }\n#res 6\nx:\n",
+        "#bankdef a { bits=8, addr=0, outp=0xffff_ffff_ffff_fff8 }\n#bankdef b { bits=8, addr=0, size=0x10, outp=0x10 }\n#bank b\n#d8 0xcd\n#bank a\n#res 1\n#d8 0xab\n",
+        "#bankdef a { bits=8, addr=0, outp=0xffff_ffff_ffff_fff0 }\n#res 1\nx:\n#res 1\ny:\n",
+        "#bankdef a { bits=8, addr=0, outp=0xffff_ffff_ffff_fff0 }\n#res 2\nx:\n",
     ]
